@@ -35,7 +35,7 @@ LEVEL_NOTE = 'Trusted: bvf/refmodel.py Layouter + encoder; generator exclusions 
 
 @st.composite
 def _cases(draw, tier):
-    cfg = draw(G.layout_isa(zones=True, blocks=True, redefine_global=True))
+    cfg = draw(G.layout_isa(zones=True, blocks=True, redefine_global=True, address_sizes=(8, 12, 16, 16, 16, 24, 32, 10, 18, 56, 64)))
     b, feats = G.general_program(draw, cfg, extra=['include'])
     return {'isa': cfg, 'items': b.items, 'lo': b.lo, 'fill': draw(st.sampled_from([0, 0xEE])), 'feats': sorted(feats)}
 
